@@ -25,6 +25,7 @@ type params struct {
 	F        int
 	P        int
 	Refuse   bool // broker refuses the resume of the first stream (non-conflict code)
+	Zero     bool // the broker numbers stream aliases from 0
 	During   bool // the link is cut first (redial takes 3 s) and the InFlight call is issued during the outage
 	Conflict bool // broker answers the first resume attempt of every stream with RESUME_REQUEST_CONFLICT, the next with success
 	Lemma    string
@@ -39,6 +40,9 @@ func (p params) name() string {
 	}
 	if p.During {
 		return fmt.Sprintf("%s/%s/F%d/P%d/during-outage", p.Streams, p.InFlight, p.F, p.P)
+	}
+	if p.Zero {
+		return fmt.Sprintf("%s/%s/F%d/P%d/refuse%v/alias0", p.Streams, p.InFlight, p.F, p.P, p.Refuse)
 	}
 	return fmt.Sprintf("%s/%s/F%d/P%d/refuse%v", p.Streams, p.InFlight, p.F, p.P, p.Refuse)
 }
@@ -67,6 +71,8 @@ func scenarios(tier string) []vlib.Scenario {
 	add(params{Kind: "e", Streams: "up+down", InFlight: "none", F: 1, Conflict: true})
 	add(params{Kind: "e", Streams: "upR+upU", InFlight: "none", F: 1, Conflict: true})
 	add(params{Kind: "e", Streams: "upR+upU", InFlight: "none", F: 1, Refuse: true})
+	add(params{Kind: "e", Streams: "upR+upU", InFlight: "none", F: 1, Refuse: true, Zero: true})
+	add(params{Kind: "e", Streams: "upR+upU", InFlight: "none", F: 1, Refuse: true, Zero: true, P: 1})
 	add(params{Kind: "e", Streams: "up+down", InFlight: "none", F: 1, P: 1})
 	// requests issued while the connection is down
 	for _, f := range []string{"openup", "opendown", "meta", "call", "write"} {
@@ -75,6 +81,7 @@ func scenarios(tier string) []vlib.Scenario {
 	add(params{Kind: "e", Streams: "up+down", InFlight: "meta", F: 1, During: true})
 	add(params{Kind: "e", Streams: "up+down", InFlight: "openup", F: 0, P: 1, During: true})
 	add(params{Kind: "e", Streams: "up", InFlight: "meta", F: 1, P: 1})
+	add(params{Kind: "e", Streams: "up", InFlight: "call", F: 1, P: 1})
 	if tier == "thorough" {
 		for _, s := range streams {
 			for _, f := range inflight {
@@ -133,7 +140,7 @@ type world struct {
 }
 
 func (w *world) script() *sim.Script {
-	s := &sim.Script{Unreliable: w.p.Streams == "upR+upU"}
+	s := &sim.Script{Unreliable: w.p.Streams == "upR+upU", AliasFromZero: w.p.Zero}
 	w.rxn = map[string]int{}
 	established := map[int]bool{}
 	s.Fault = func(c *sim.BConn, dir string, m message.Message) sim.FaultKind {
